@@ -209,11 +209,16 @@ pub fn client_core_data(parameter: Option<ClientData>) -> Component {
             name: "".to_string()
         });
 
-    let client_name = if client_parameter.name.len() >= 16 {
-        (&client_parameter.name[0..16]).to_string()
-    } else {
-        client_parameter.name.clone() + &"\x00".repeat(16 - client_parameter.name.len())
-    };
+    // clientName is a fixed 32 bytes field : 15 UTF-16 units at most and a null terminator
+    let mut client_name = client_parameter.name.to_unicode();
+    if client_name.len() > 30 {
+        client_name.truncate(30);
+        // do not keep the first half of a surrogate pair
+        if client_name[29] & 0xFC == 0xD8 {
+            client_name.truncate(28);
+        }
+    }
+    client_name.resize(32, 0);
 
     component![
         "version" => U32::LE(client_parameter.rdp_version as u32),
@@ -223,7 +228,7 @@ pub fn client_core_data(parameter: Option<ClientData>) -> Component {
         "sasSequence" => U16::LE(Sequence::RnsUdSasDel as u16),
         "kbdLayout" => U32::LE(client_parameter.layout as u32),
         "clientBuild" => U32::LE(3790),
-        "clientName" => client_name.to_string().to_unicode(),
+        "clientName" => client_name,
         "keyboardType" => U32::LE(KeyboardType::Ibm101102Keys as u32),
         "keyboardSubType" => U32::LE(0),
         "keyboardFnKeys" => U32::LE(12),
